@@ -246,9 +246,61 @@ f_closure, set_closure = make(7.0, 3.0)
 '''
 
 
+ANNOT_SRC = '''from __future__ import annotations
+from onnxscript import script, FLOAT, INT64, BOOL
+from onnxscript import opset18 as op
+
+Factor = float
+Count = int
+
+
+@script()
+def callee(a: FLOAT[3], factor: Factor, n: Count = 2) -> FLOAT[3]:
+    return a * factor + op.Cast(n, to=1)
+
+
+#REBIND#
+
+
+@script()
+def caller(x: FLOAT[3]) -> FLOAT[3]:
+    t = callee(x, factor=2.5, n=3)
+    return callee(t, 0.5)
+'''
+
+
+def run_mutate_annot(spec):
+    """Postponed annotations (from __future__ import annotations): the signature of a script function is what its annotations
+    meant WHEN IT WAS DECORATED.  Rebinding a module-level annotation alias afterwards (before any other script calls the
+    function) must not change how later scripts translate calls to it."""
+    form = spec.get("form", "to_int")
+    rebind = {"to_int": "Factor = int", "to_tensor": "Factor = FLOAT\nCount = INT64", "to_bool": "Factor = bool\nCount = float"}[form]
+    viol, events = [], {"sub_mutations": 1}
+    outs = {}
+    for tag, src in (("plain", ANNOT_SRC.replace("#REBIND#", "")), ("rebound", ANNOT_SRC.replace("#REBIND#", rebind))):
+        try:
+            mod = _load(src, "annot")
+            outs[tag] = {"model": ser(mod.caller.to_model_proto()), "function": ser(mod.caller.to_function_proto()),
+                         "callee": ser(mod.callee.to_function_proto())}
+        except Exception as e:
+            outs[tag] = {"raised": f"{type(e).__name__}: {str(e)[:200]}"}
+    for k in ("model", "function", "callee"):
+        events[f"sub_mutate_observed:{k}"] = 1
+    if outs["plain"] != outs["rebound"]:
+        changed = [k for k in set(outs["plain"]) | set(outs["rebound"]) if outs["plain"].get(k) != outs["rebound"].get(k)]
+        viol.append({"key": f"sub=mutate;observed=proto;what=annot_{form}",
+                     "what": f"annotation alias rebound ({rebind!r}) after the callee was decorated: {sorted(changed)} of a caller decorated "
+                             f"afterwards differ from the run without the rebinding" + (f" ({outs['rebound'].get('raised')})" if "raised" in outs["rebound"] else ""),
+                     "detail": {"what": "annot", "form": form}})
+    return {"status": "ok", "viol": viol, "events": events, "nontrivial": True, "sig": f"mutate:annot:{form}",
+            "sample": {"sub": "mutate", "what": "annot", "form": form}}
+
+
 def run_mutate(spec):
     import onnx  # noqa: F401
 
+    if spec["what"] == "annot":
+        return run_mutate_annot(spec)
     what, form = spec["what"], spec.get("form", "rebind")
     mod = _load(MUT_SRC, "mut")
     viol, events = [], {}
